@@ -1,4 +1,5 @@
 import PicoVerif.Model.AstWriters
+import PicoVerif.Lemmas.C10
 /-! C10 — luafmt output is canonical.  Theorems about `normRun`, the formatter's regex pipeline as a function: what
 `LuaFormatterWriter` writes for one run of space/newline/comment tokens (width `w`, indent level `d` in force,
 `atStart`/`atEnd` = the run starts / ends the token stream).  The whole output is these rendered runs interleaved
@@ -16,43 +17,71 @@ a tab or a carriage return. -/
 theorem no_trailing_ws (w d : Nat) (s e : Bool) (r : Bytes) (i : Nat)
     (h : (normRun w d s e r)[i + 1]? = some 10) :
     (normRun w d s e r)[i]? ≠ some 32 ∧ (normRun w d s e r)[i]? ≠ some 9 ∧ (normRun w d s e r)[i]? ≠ some 13 := by
-  sorry
+  obtain ⟨hc, hn, _⟩ := normRun_good w d s e r
+  refine ⟨NoSpLF_index _ hn i h, ?_, ?_⟩
+  · intro h9; exact (hc 9 (List.mem_of_getElem? h9)).1 rfl
+  · intro h13; exact (hc 13 (List.mem_of_getElem? h13)).2 rfl
 
 /-- **C10.blank_lines**: a rendered run never contains more than one blank line in a row (three line feeds). -/
 theorem blank_lines (w d : Nat) (s e : Bool) (r : Bytes) (i : Nat) :
     ¬ ((normRun w d s e r)[i]? = some 10 ∧ (normRun w d s e r)[i + 1]? = some 10 ∧ (normRun w d s e r)[i + 2]? = some 10) := by
-  sorry
+  exact NoTriple_index _ (normRun_good w d s e r).2.2.2.2 i
 
 /-- **C10.no_blank_at_end**: the run that ends the file is rendered without trailing spaces or blank lines: it ends
 in at most one line feed, preceded by neither a space nor a line feed. -/
 theorem no_blank_at_end (w d : Nat) (s : Bool) (r : Bytes) :
     let out := normRun w d s true r
     out.getLast? ≠ some 32 ∧ (∀ body, out = body ++ [10] → body.getLast? ≠ some 10 ∧ body.getLast? ≠ some 32) := by
-  sorry
+  intro out
+  have ho : out = normRun w d s true r := rfl
+  rw [normRun_eq, endRun_true] at ho
+  obtain ⟨pre, t, _, hp, _, e'⟩ := subTrailing_cases (collapseLF (if s then subAllSpaces (subFinalIndent (List.replicate (w * d) 32)
+    (midRun (w * d) s (dropSpacesBeforeLF (normBreaks r)))) else subFinalIndent (List.replicate (w * d) 32)
+    (midRun (w * d) s (dropSpacesBeforeLF (normBreaks r)))))
+  rw [e'] at ho
+  clear_value out
+  subst ho
+  by_cases hc : t.contains 10 = true
+  · simp only [hc, if_true]
+    refine ⟨by simp, ?_⟩
+    intro body hb
+    have := List.append_cancel_right hb
+    subst this; exact ⟨hp.2, hp.1⟩
+  · have hc' : t.contains 10 = false := by simpa using hc
+    simp only [hc', Bool.false_eq_true, if_false, List.append_nil]
+    refine ⟨hp.1, ?_⟩
+    intro body hb
+    exact absurd (by rw [hb]; simp) hp.2
 
 /-- **C10.indent_exact**: when the code token after the run begins a line (the run's last line is blank), the
 rendered run ends with a line feed followed by exactly `width x depth` spaces. -/
 theorem indent_exact (w d : Nat) (s : Bool) (pre : Bytes) (k : Nat) (hpre : pre.getLast? ≠ some 13) :
     ∃ body, normRun w d s false (pre ++ [10] ++ List.replicate k 32) = body ++ [10] ++ indentOf w d ∧ body.getLast? ≠ some 32 := by
-  sorry
+  exact normRun_indent w d s pre k hpre
 
 /-- **C10.idempotent**: rendering an already rendered run changes nothing (formatting formatted code is stable). -/
 theorem idempotent (w d : Nat) (s e : Bool) (r : Bytes) :
     normRun w d s e (normRun w d s e r) = normRun w d s e r := by
-  sorry
+  exact normRun_idem w d s e r
 
 /-- **C10.trailing_space_invariant**: spaces and tabs at the end of an input line do not influence the output. -/
 theorem trailing_space_invariant (w d : Nat) (s e : Bool) (a ws b : Bytes) (hws : ws.all (fun c => c == 32 || c == 9) = true)
     (ha : a.getLast? ≠ some 13) :
     normRun w d s e (a ++ ws ++ [10] ++ b) = normRun w d s e (a ++ [10] ++ b) := by
-  sorry
+  exact normRun_trailing w d s e a ws b hws ha
 
 /-- **C10.leading_space_invariant**: how an input line that is blank, a `--` comment line or the code line after the
 run is indented does not influence the output. -/
 theorem leading_space_invariant (w d : Nat) (s e : Bool) (a ws b : Bytes) (hws : ws.all (fun c => c == 32 || c == 9) = true)
     (hb : b = [] ∨ [45, 45].isPrefixOf b = true ∨ b.head? = some 10) :
     normRun w d s e (a ++ [10] ++ ws ++ b) = normRun w d s e (a ++ [10] ++ b) := by
-  sorry
+  apply normRun_leading w d s e a ws b hws
+  rcases hb with hb | hb | hb
+  · exact Or.inl hb
+  · exact Or.inr (Or.inl ((isPrefixOf_dashes b).mp hb))
+  · cases b with
+    | nil => simp at hb
+    | cons c b => simp at hb; exact Or.inr (Or.inr ⟨b, by rw [hb]⟩)
 
 example : normRun 2 1 false false "  \n\n\n\t-- c \n    ".toUTF8.toList = "\n\n  -- c\n  ".toUTF8.toList := by decide +kernel
 example : normRun 2 1 false false "\n\n".toUTF8.toList = "\n\n  ".toUTF8.toList := by decide +kernel   -- blank line stays empty (defect 25)
